@@ -158,3 +158,40 @@ func VerifC20_DecFromStr() {
 	}
 	zz.Reach("C20.dec.fromstr.accepted")
 }
+
+// vIntHostileText: the Int / Uint / Dec text decoders (what the amino and JSON decoders call for every integer field of
+// a transaction) return an error or a value for every text of up to 2 arbitrary bytes - they never panic, whatever the
+// bytes (empty text, lone sign, non-digits).
+func vIntHostileText(p string) {
+	zz.ExactBigText(true)
+	n := zz.Choice("len", 3)
+	bs := zz.Bytes("text", n)
+	// (forms whose parsing the engine does not model: prefixed/octal literals and digit separators)
+	if n == 2 {
+		zz.Assume(bs[0] != '0' && bs[0] != '_' && bs[1] != '_')
+		zz.Assume(!((bs[0] == '-' || bs[0] == '+') && bs[1] == '0'))
+	}
+	if n == 1 {
+		zz.Assume(bs[0] != '_')
+	}
+	text := string(bs)
+	which := zz.Choice("type", 3)
+	panicked := vPanics(func() {
+		switch which {
+		case 0:
+			var x Int
+			_ = x.UnmarshalAmino(text)
+		case 1:
+			var x Uint
+			_ = x.UnmarshalAmino(text)
+		case 2:
+			var x Dec
+			_ = x.UnmarshalAmino(text)
+		}
+	})
+	zz.Assert(p+".never-panics", !panicked)
+	zz.Reach(p + ".end")
+}
+
+func VerifC20_IntHostileText()        { vIntHostileText("C20.int.hostile-text") }
+func VerifC11_IntFieldDecodeNoPanic() { vIntHostileText("C11.decode.integer-field") }
